@@ -10,18 +10,25 @@ def key(ev):
 
 
 def run(tier, seed, work):
-    cfg = "MC_Voted_quick.cfg" if tier == "quick" else "MC_Voted_thorough.cfg"
-    inst = 1 if tier == "quick" else 2
-    return verif.run_table_check(
-        "C01", tier, seed, work,
-        mc=("MC_Voted.tla", cfg), trace=("Trace_Relayer.tla", "Trace_Relayer_C01.cfg"),
-        driver_args=["voted", "-cases", os.path.join(work, "cases.ndjson"), "-inst", inst],
-        key_fn=key, level="model_checking",
-        boundary=lambda ln: '"ev":"init"' in ln,
+    from checks import relayer_common as rc
+    quick = tier == "quick"
+    cfg = "MC_Voted_quick.cfg" if quick else "MC_Voted_thorough.cfg"
+    inst = 1 if quick else 2
+    table = [("c01table", ["voted", "-cases", os.path.join(work, "cases.ndjson"), "-inst", inst, "-seed", seed])]
+    # dynamic membership: histories in which voters join through MsgNewVoter (some of them holding the SAME vote key as another
+    # member), leave and are elected; every vote verdict is compared with QuorumOk
+    per, depth, nj = (3, 30, 10) if quick else (30, 40, 12)
+    hist = rc.jobs(seed + 40, per, depth, nj, 3, 2, "c01hist")
+    groups = [("Trace_Relayer.tla", "Trace_Relayer_C01.cfg", table), ("Trace_Relayer.tla", "Trace_Relayer_C01_hist.cfg", hist)]
+    return verif.run_stateful_check(
+        "C01", tier, seed, work, mc_list=[("MC_Voted.tla", cfg)], groups=groups, key_fn=lambda ev: key(ev) if ev.get("ev") == "vote" else rc.key(ev),
+        level="model_checking", extra_cov=dict(exhaustive=True, exhaustive_part="the case table of MC_Voted (group 1); the histories (group 2) are random"),
         assumptions=["ideal BLS: an aggregate verifies under a bag of keys iff exactly those key holders signed exactly that sign-doc "
                      "(rogue-key resistance rests on the proof of possession checked under C16)",
-                     "group membership is static inside this check; dynamic membership feeds the same Voted action in C02/C16"],
+                     "group membership is static inside the case table; the random histories add dynamic membership (joins by MsgNewVoter, "
+                     "also of identities sharing a vote key, removals, elections)"],
         rule="TLC enumerates, for every group size n in 0..N (N=3 quick, 5 thorough): every bitmap over positions 0..n+1 (two beyond "
              "the voter list, mapped to real positions n, n+1, 63+n, 64, 127, 129, 200, 255) x every subset of {outsider, proposer, "
              "voters} that really signed, and every genuine quorum x 16 single-field corruptions x 3 action kinds; each case is a real "
-             "signed transaction with a real BLS aggregate, executed by FinalizeBlock of the real app; distinct = distinct events")
+             "signed transaction with a real BLS aggregate, executed by FinalizeBlock of the real app; plus random relayer histories with "
+             "joining / leaving voters, shared vote keys, full, minimal and one-short signer sets; distinct = distinct events")
